@@ -736,7 +736,15 @@ func runHubWalk(c *vk.Ctx, cfg HubCfg, walk []*graph.Edge, shape Shape, seed int
 				b, _ := json.Marshal(map[string]any{"cfg": cfg, "shape": shape, "chain": h.chainVariant, "cdp": h.cdpVariant, "names": h.nameVariant, "steps": hist})
 				fmt.Fprintf(os.Stderr, "HUBDRIFT %s %s\n", drift, b)
 			}
-			if divergencePreds[c.ID] && !h.poisoned && (strings.HasPrefix(drift, "loaded-") || strings.HasPrefix(drift, "fetch-")) {
+			// (not when the code fetched LESS than the model in this step: then the ghost state is ahead of anything the code has
+			// seen - it may rightly still hold the previous list - and says nothing about what must hold now)
+			behind := false
+			for _, l := range []string{"D", "U"} {
+				if obs.Exp.Fetch[l] > 0 && obs.Fetched[l] == 0 && !(l == "U" && cfg.Conf == "file") {
+					behind = true
+				}
+			}
+			if divergencePreds[c.ID] && !h.poisoned && !behind && (strings.HasPrefix(drift, "loaded-") || strings.HasPrefix(drift, "fetch-")) {
 				done += hubAfterDivergence(c, h, cfg, e, shape, hist, preds)
 			}
 			return done
